@@ -124,9 +124,10 @@ T = {
         "Proved: encode_state_data asks the process registry for the state type of the value's class, lets exactly that type serialise exactly "
         "the value in exactly the requested format and reports the identifier of that same type; decode_state_data selects the decoder by "
         "exactly the recorded identifier and lets it read exactly the given bytes in the requested format; the text type writes utf-8 and reads it "
-        "back with the same codec, the bytes type passes bytes through (round-trip lemma relative to the utf-8 codec law); the copy methods return "
+        "back with the same codec, the bytes type passes bytes through, the generic and pickle types pair json.dumps / json.loads and pickle.dumps "
+        "/ pickle.loads per format (round trips relative to the assumed laws of utf-8, json and pickle); the copy methods return "
         "deep copies. "
-        "The codec law from_bytes(as_bytes(v, e), e) == v of the other state types (json / djson / pickle / dataframes ...) is NOT proved - "
+        "The codec law from_bytes(as_bytes(v, e), e) == v of the remaining state types (the line-oriented dictionary format, dataframes, images ...) and the laws of the library codecs themselves are NOT proved - "
         "library codecs are outside the engine - and is explored over generated values of every built-in type and format.",
         "17 deductive obligations decide who encodes and who decodes; the round trip itself is bounded. One recorded finding (nested "
         "containers in the line-oriented dictionary format). " + BOUNDED),
